@@ -53,10 +53,11 @@ Pipeline(local, ifs, policies, b, inIf) ==
          ELSE IF b.bad # {} THEN "signature"
          ELSE "stored"
 
-\* propagation of a stored beacon over an interface towards nbr is allowed by the statement
-\* (the reading of DESIGN.md: the neighbour appended to the beacon's ASes must not close a loop)
-MayPropagate(hops, nbr, isdLoopAllowed) == ~Loop(Append(hops, nbr), isdLoopAllowed)
-\* stronger reading (drift only): the local AS entry that the propagation adds is part of the path
-MayPropagateStrong(hops, local, nbr, isdLoopAllowed) ==
+\* Propagating a stored beacon over an interface towards nbr yields the AS sequence
+\* hops \o <<local>> \o <<nbr>> (the propagator's extender appends the local AS entry): the statement
+\* forbids the propagation if that sequence contains an AS loop (or an ISD loop when disallowed).
+MayPropagate(hops, local, nbr, isdLoopAllowed) ==
     ~Loop(Append(Append(hops, local), nbr), isdLoopAllowed)
+\* the loop test of the code before the fix in /repo: the local AS was left out
+MayPropagateNoLocal(hops, nbr, isdLoopAllowed) == ~Loop(Append(hops, nbr), isdLoopAllowed)
 =============================================================================
